@@ -16,6 +16,8 @@ import (
 	"sync"
 	"time"
 
+	"github.com/tokenized/pkg/bitcoin"
+	"github.com/tokenized/pkg/wire"
 	"github.com/tokenized/spynode/internal/verifrt"
 )
 
@@ -200,4 +202,75 @@ func VerifHarness_C19_failed_start() {
 	verifrt.Assert(stopDone, "C19.failed-start.stop-returns")
 	mu.Unlock()
 	verifrt.Reach("C19.failed-start.done")
+}
+
+// VerifHarness_C19_failed_tx: the node is in sync; the trusted peer relays a transaction that matches
+// the subscriptions and whose spent outputs the full node behind the output fetcher cannot find - it
+// takes half a second to say so - followed by a burst of further transactions that fills the queue
+// to the transaction processor (capacity 2 here through a source rewrite, 100 in Run: the same
+// code path).  The processor gives up with an error and asks the node to stop.  From that state,
+// too, a stop request returns within a bounded time.
+func VerifHarness_C19_failed_tx() {
+	verifrt.Goroutines()
+	ctx := context.Background()
+	w, store, cfg := c19NewWorld(ctx)
+	if w.ln != nil {
+		defer w.ln.Close()
+	}
+	w.newNode(cfg, store)
+	node := w.node
+	w.connectPeer()
+	runDone, stopDone := false, false
+	var mu sync.Mutex
+	go func() {
+		node.Run(ctx)
+		mu.Lock()
+		runDone = true
+		mu.Unlock()
+	}()
+	for tick := 0; tick < 30 && !node.state.IsReady(); tick++ {
+		w.tick(100 * time.Millisecond)
+	}
+	verifrt.Assert(node.state.IsReady(), "C19.failed-tx.in-sync")
+	w.fetcher.strict = true
+	w.fetcher.delay = 500 * time.Millisecond
+	bogus := wire.NewMsgTx(1)
+	var nowhere bitcoin.Hash32
+	nowhere[0] = 0x77
+	bogus.AddTxIn(wire.NewTxIn(wire.NewOutPoint(&nowhere, 0), bitcoin.Script{0x01, 0x01}))
+	bogus.AddTxOut(wire.NewTxOut(1, vkRelevantScript()))
+	w.link.toNode(bogus)
+	burst := 2 + verifrt.Choose("burst", 4) // 2..5 further transactions
+	for i := 0; i < burst; i++ {
+		w.link.toNode(vkTx(30+i, []int{8 + i}, false))
+	}
+	for tick := 0; tick < 10; tick++ { // one second: the fetch has failed by now
+		w.tick(100 * time.Millisecond)
+	}
+	stopRequested := verifrt.NowNanos()
+	go func() {
+		node.Stop(ctx)
+		mu.Lock()
+		stopDone = true
+		mu.Unlock()
+	}()
+	returnedAfter := int64(-1)
+	for tick := 0; tick < 80; tick++ {
+		w.tick(100 * time.Millisecond)
+		mu.Lock()
+		s := stopDone
+		mu.Unlock()
+		if s {
+			returnedAfter = verifrt.NowNanos() - stopRequested
+			break
+		}
+	}
+	mu.Lock()
+	r := runDone
+	mu.Unlock()
+	verifrt.Sig("failed-tx", burst, "stop")
+	verifrt.Assert(returnedAfter >= 0 && returnedAfter <= int64(5*time.Second), "C19.stop.returns-within-bounded-time")
+	verifrt.Sig("failed-tx", burst, "run")
+	verifrt.Assert(r, "C19.stop.run-loop-has-returned-when-stop-returns")
+	verifrt.Reach("C19.failed-tx.done")
 }
